@@ -20,11 +20,14 @@ pub fn scenarios(tier: &str) -> Vec<Scenario> {
 		v.push(drop_scenario("drop-at-every-state/hash/n4-x1", small_family(), 4, 1, false));
 		v.push(scenario("crash-keeps-synced/hash/n3", small_family(), 3, 1, CrashCfg { torn: 2, recovery_depth: 2, ..Default::default() }, false));
 		v.push(scenario("crash-keeps-synced/hash+btree/n3", kv_family(), 3, 0, CrashCfg { torn: 1, recovery_depth: 1, ..Default::default() }, false));
+		v.push(scenario("crash-keeps-synced/rc+tree/n3", rc_tree_family(), 3, 0, CrashCfg { torn: 1, recovery_depth: 1, ..Default::default() }, true));
 	} else {
 		v.push(drop_scenario("drop-at-every-state/hash+btree/n2-x2", kv_family(), 2, 2, false));
 		v.push(drop_scenario("drop-at-every-state/hash/n3-x1", small_family(), 3, 1, false));
 		v.push(drop_scenario("drop-at-every-state/rc+tree/n2-x1", rc_tree_family(), 2, 1, true));
 		v.push(scenario("crash-keeps-synced/hash/n3", small_family(), 3, 0, CrashCfg { torn: 1, recovery_depth: 1, ..Default::default() }, false));
+		// counting column + multitree column with a shared node (reference-count records in the log)
+		v.push(scenario("crash-keeps-synced/rc+tree/n2", rc_tree_family(), 2, 0, CrashCfg { torn: 0, recovery_depth: 1, ..Default::default() }, true));
 	}
 	// reindex batches pending at the moment of the drop / crash: C09's growth family (the commit that makes the index
 	// grow, every stage schedule incl. reindex batches, reopen anywhere; crash points of every step of the growth)
